@@ -193,9 +193,14 @@ P['C03']={
   H+"redirectToIDP":["redirect","login_state","location","new_sid"],
   H+"Process":["ok_justified","ok_forwards","noerr","status"],
   H+"areRequiredTokensExpired":[],
+  H+"Process@live":[], H+"retrieveTokens@live":[], H+"redirectToIDP@live":[], H+"isValidIDToken@live":[], A+"performIDPRequest@live":[], H+"areRequiredTokensExpired@live":[],
  },
- "required":[H+"retrieveTokens:post:login_expiry", H+"retrieveTokens:post:redirect_back"],
- "note":"per-step postconditions of the login pass (redirect with stored login state, callback binding the provider's tokens and redirecting to the stored URL, fresh tokens short-circuiting to OK without an exchange); the recorded access-token expiry follows 'zero means unknown'"}
+ "variant":"live",
+ "variant_functions":[A+"performIDPRequest",H+"isValidIDToken",H+"areRequiredTokensExpired",H+"redirectToIDP",H+"retrieveTokens",H+"Process"],
+ "kinds":["post","pre@call","frame","cover","lemma","inv-init","inv-step"],
+ "lemmas":["L-login-reaches-callback","L-callback-reaches-service"],
+ "required":[H+"retrieveTokens:post:login_expiry", H+"retrieveTokens:post:redirect_back", H+"Process@live:post:login", H+"Process@live:post:callback", H+"Process@live:post:served", H+"Process@live:post:served_tokens", H+"Process@live:cover:cover_login", H+"Process@live:cover:cover_callback", H+"Process@live:cover:cover_served", H+"retrieveTokens@live:post:login_completes", H+"isValidIDToken@live:post:live", A+"performIDPRequest@live:post:live", "lemma.L-login-reaches-callback:lemma", "lemma.L-callback-reaches-service:lemma"],
+ "note":"progress of a login in a fault-free run against a compliant provider (contract variant live): the three steps as success-direction postconditions of Process, chained by two lemmas for a browser that follows the redirects; plus the safety-direction postconditions of each step"}
 # C15 owns panic freedom: of its functions only the listed posts (well-formed verdict) are included
 for f in P['C15']['functions']:
     P['C15']['posts'].setdefault(f, ["<none>"])
